@@ -1266,6 +1266,26 @@ def main():
     # (f) a value parameter whose only write is a Referenz call nested in an argument of another call; (g) errors whose result is dead
     sources += src_nested(rng, 5 if quick else 69)
     sources += src_dead(rng, 6 if quick else 25)
+    # (h) value parameters of generic / monomorphic callees, same module / imported module, called directly / from inside
+    #     another function, always with a LOCAL variable as argument (c08gen.generic_param_programs); quick: one
+    #     same-module generic program per parameter type and two others
+    gpp = c08gen.generic_param_programs()
+    if quick:
+        same = [it for it in gpp if it[0]["gp"][1] == "generic" and it[0]["gp"][2] == "same"]
+        rng.shuffle(same)
+        pick, tys = [], set()
+        for it in same:
+            if it[0]["gp"][0] not in tys:
+                pick.append(it)
+                tys.add(it[0]["gp"][0])
+        rest = [it for it in gpp if it not in same]
+        rng.shuffle(rest)
+        gpp = pick + rest[:2]
+    for d, gp in gpp:
+        files = {"prog.ddp": gp["raw"].replace("@MOD@", "gmod")}
+        for k, v in gp["files"].items():
+            files[k.replace("@MOD@", "gmod") + ".ddp"] = v
+        sources.append(Source("generic-param", files, "prog.ddp", meta=dict(gp=list(d["gp"]), name=d["name"])))
     # (d) upstream goldens
     gold, gskipped = goldens(os.path.join(sc, "testdata"))
     if quick:
